@@ -21,6 +21,44 @@ class Leave(Exception):
     pass
 
 
+class Fork(Exception):
+    """a comparison of field terms that is true for some field values and false for others (both witnessed concretely)"""
+
+    def __init__(self, loc, wt, wf):
+        Exception.__init__(self, 'fork at %s' % loc)
+        self.loc, self.wt, self.wf = loc, wt, wf
+
+
+def t_val(t, pt):
+    if t[0] == 'mod':
+        return t_val(t[2], pt) % t[1]
+    return sum(c * pt[v] for v, c in t[1]) + t[2]
+
+
+def key_val(key, pt):
+    """concrete value of a piece list at a point {e, c, p}"""
+    return sum(((t_val(t, pt) % (1 << w)) << o) for o, w, t in key)
+
+
+def grid_for(name):
+    """field values used to witness that a comparison can go both ways; they respect the invariants of the state word
+    (threads in the previous epoch <= thread count, at least one thread) and the stated precondition of the epoch-advancing
+    updates (the caller is the last thread in the previous epoch: that count is 1, or 0 / 1 for the non-leaving variant)"""
+    pts = []
+    for e in range(4):
+        for c in (1, 2, 3, 5, (1 << 30) - 2):
+            if 'inc_epoch_dec_thread_count_reset_previous' in name or name.endswith('(advance)'):
+                ps = (1,)
+            elif 'inc_epoch_reset_previous' in name:
+                ps = (0, 1)
+            else:
+                ps = (0, 1, 2, c)
+            for p in ps:
+                if p <= c:
+                    pts.append({'e': e, 'c': c, 'p': p})
+    return pts
+
+
 def aff(const=0, **vars_):
     return ('aff', tuple(sorted((k, v) for k, v in vars_.items() if v)), const)
 
@@ -178,6 +216,8 @@ class Interp:
         self.cfg = cfg
         self.notes = set()
         self.depth = 0
+        self.force = {}
+        self.grid = []
 
     def call(self, f, args, this=None):
         self.depth += 1
@@ -247,6 +287,21 @@ class Interp:
                 return self.ev(f, e['a'], env, this)
             if c is False:
                 return self.ev(f, e['b'], env, this)
+            if isinstance(c, tuple) and c and c[0] == 'cmp' and self.grid:
+                loc = e.get('loc')
+                if loc in self.force:
+                    return self.ev(f, e['a'] if self.force[loc] else e['b'], env, this)
+                import operator as _op
+                OPS = {'<': _op.lt, '<=': _op.le, '>': _op.gt, '>=': _op.ge, '==': _op.eq, '!=': _op.ne}
+                wt = [pt for pt in self.grid if OPS[c[1]](key_val(c[2], pt), key_val(c[3], pt))]
+                wf = [pt for pt in self.grid if pt not in wt]
+                if wt and wf:
+                    raise Fork(loc, wt, wf)
+                # the same outcome at every sampled point proves nothing about the others: stay undecided
+            # ... unless the decision does not matter
+            va, vb = self.ev(f, e['a'], env, this), self.ev(f, e['b'], env, this)
+            if isinstance(va, V) and isinstance(vb, V) and va.key() == vb.key():
+                return va
             raise Leave('condition not decided')
         if k == 'binop':
             op = e.get('op')
@@ -343,18 +398,52 @@ def qs1(cfg):
                     a.append({'epoch_val': V([(0, 2, e_)], 8)})
                 else:
                     a.append(x)
-            try:
-                got = it.call(f, a)
-            except Leave as lv:
-                res.incompl('QS-1: %s left the bit-field domain (%s)' % (name, lv))
+            # a comparison between fields that can go both ways (witnessed by concrete field values) splits the evaluation;
+            # every leaf must compute the specified word
+            pending = [({}, grid_for(name))]
+            leaves = []
+            left = None
+            while pending and len(leaves) < 16:
+                force, grid = pending.pop()
+                it = Interp(cfg)
+                it.force, it.grid = force, grid
+                try:
+                    leaves.append((force, grid, it.call(f, a), it))
+                except Fork as fk:
+                    pending.append((dict(force, **{fk.loc: True}), fk.wt))
+                    pending.append((dict(force, **{fk.loc: False}), fk.wf))
+                except Leave as lv:
+                    left = lv
+                    break
+            if left is not None or pending:
+                res.incompl('QS-1: %s left the bit-field domain (%s)' % (name, left if left is not None else 'too many case splits'))
                 continue
-            gk = got.key() if isinstance(got, V) else ({k: (v.key() if isinstance(v, V) else v) for k, v in got.items()} if isinstance(got, dict) else got)
-            ok = gk == want
+            got = leaves[0][2]
+            witness = None
+            ok = True
+            undecided = False
+            for force, grid, g_, it_ in leaves:
+                gk = g_.key() if isinstance(g_, V) else ({k: (v.key() if isinstance(v, V) else v) for k, v in g_.items()} if isinstance(g_, dict) else g_)
+                if gk == want:
+                    continue
+                # a symbolic mismatch in a case-split leaf: it is a violation when the two words differ at a witness point
+                if force and isinstance(g_, V) and isinstance(want, tuple):
+                    bad_pts = [pt for pt in grid if key_val(gk, pt) != key_val(want, pt)]
+                    if bad_pts:
+                        ok, got, witness = False, g_, (bad_pts[0], force)
+                    else:
+                        undecided = True
+                else:
+                    ok, got = False, g_
+            if ok and undecided:
+                res.incompl('QS-1: %s: a case-split leaf differs from the specification symbolically but at none of the witness points' % name)
+                continue
+            it = leaves[0][3]
             for nt in it.notes:
                 res.note('QS-1 assumes: ' + nt)
             res.ob(ok, {'rule': 'QS-1', 'function': 'qsbr_state::' + name, 'site': fileline(f.loc), 'computed': repr(got)[:160], 'verdict': 'discharged' if ok else 'VIOLATION'})
             if not ok:
-                res.find(f, f.loc, 'qsbr_state::%s computes %s, its callers rely on %s: the global state word would carry a wrong epoch, thread count or previous-epoch count - epochs advance while a thread has not quiesced (memory freed under a reader) or never advance again (nothing is freed)' % (name, repr(got)[:200], _show(want)), key='QS-1:' + name, config=cfg.name)
+                res.find(f, f.loc, 'qsbr_state::%s computes %s%s, its callers rely on %s: the global state word would carry a wrong epoch, thread count or previous-epoch count - epochs advance while a thread has not quiesced (memory freed under a reader) or never advance again (nothing is freed)' % (name, repr(got)[:200], (' (for instance with thread count %d and %d thread(s) in the previous epoch, where the comparison at %s is %s)' % (witness[0]['c'], witness[0]['p'], ', '.join(fileline(l) for l in witness[1]), '/'.join(str(v).lower() for v in witness[1].values()))) if witness else '', _show(want)), key='QS-1:' + name, config=cfg.name)
     # the atomic decrement takes one unit of the lowest field
     for f in cfg.functions:
         if f.blocks and f.cls == QS and f.short == 'atomic_fetch_dec_threads_in_previous_epoch':
